@@ -504,13 +504,24 @@ Lemma Forall_skipn_ (A : Type) (P : A -> Prop) n : forall l, Forall P l -> Foral
 Proof. induction n as [|n IH]; intros l F; [exact F|]. destruct l; [constructor|]. inversion F; subst. apply IH. assumption. Qed.
 
 Definition bytes_ok (file : list Z) : Prop := Forall (fun b => 0 <= b < 256) file.
+(* the files hextb's load() accepts and reads completely: a header, at most 200000 words announced, all of them present *)
+Definition file_ok (file : list Z) : Prop :=
+  bytes_ok file /\ file_loads file = true /\ 4 + 4 * header file <= Z.of_nat (List.length file).
+
+Lemma firstn_range (P : Z -> Prop) n : forall l, Forall P l -> Forall P (firstn n l).
+Proof. induction n as [|n IH]; intros l F; [constructor|]. destruct l; [constructor|]. inversion F; subst. constructor; [assumption | apply IH; assumption]. Qed.
+
+Lemma loaded_words_range file : bytes_ok file -> Forall (fun w => 0 <= w < 4294967296) (loaded_words file).
+Proof.
+  intros F. unfold loaded_words, image_bytes. eapply words_of_bytes_range; [apply le_n|]. apply firstn_range. apply Forall_skipn_. exact F.
+Qed.
 
 Lemma power_on_mem_range i file : bytes_ok file ->
   forall a, 0 <= a -> 0 <= rd (r_mem (t_s (power_on i file))) a < RefRtl.M32.
 Proof.
   intros F. unfold power_on. cbn [t_s r_mem]. apply load_words_range; [|lia|].
   - intros a Ha. rewrite rd_empty. apply Z.mod_pos_bound. reflexivity.
-  - unfold loaded_words. eapply words_of_bytes_range; [apply le_n|]. apply Forall_skipn_. exact F.
+  - apply loaded_words_range. exact F.
 Qed.
 
 (* the state after the eight evaluations in which nothing is sampled, and after the ninth *)
@@ -572,12 +583,12 @@ Proof.
 Qed.
 
 Theorem tb_is_isa_tb fuel i file inp ws D :
-  bytes_ok file ->
+  file_ok file ->
   agree D (mem (boot ws)) (r_mem (t_s (power_on i file))) ->
   (forall n, wb_mon D n (boot ws) inp = true) ->
   tb_view (run Current d fuel 0 (power_on i file) inp []) = isa_tb fuel (boot ws) inp.
 Proof.
-  intros F A WB. unfold isa_tb. destruct (fuel <=? 8)%nat eqn:Le.
+  intros [F _] A WB. unfold isa_tb. destruct (fuel <=? 8)%nat eqn:Le.
   - apply Nat.leb_le in Le. replace fuel with (fuel + 0)%nat by lia. rewrite run_ticks by (cbn [power_on t_time]; lia). reflexivity.
   - apply Nat.leb_gt in Le. replace fuel with (8 + S (fuel - 9))%nat at 1 by lia.
     rewrite run_ticks by (cbn [power_on t_time]; lia). rewrite boot_state8.
@@ -618,7 +629,7 @@ Qed.
 
 (* C13: the observable result does not depend on the power-on state *)
 Theorem seed_independent fuel i1 i2 file inp :
-  bytes_ok file -> well_behaved (Z.of_nat (List.length (loaded_words file))) (loaded_words file) inp ->
+  file_ok file -> well_behaved (Z.of_nat (List.length (loaded_words file))) (loaded_words file) inp ->
   obs (run Current d fuel 0 (power_on i1 file) inp []) = obs (run Current d fuel 0 (power_on i2 file) inp []).
 Proof.
   intros F WB.
@@ -652,7 +663,7 @@ Theorem boot_canonical i file inp :
   r_pc (t_s st8) = 0 /\ r_areg (t_s st8) = 0 /\ r_breg (t_s st8) = 0 /\ r_oreg (t_s st8) = 0 /\
   r_mem (t_s st8) = r_mem (t_s (power_on i file)) /\ t_time st8 = 8 /\ t_exit st8 = 0 /\
   (* the one request sampled while reset is asserted (time 9) is that of the instruction at address 0 in this state *)
-  (bytes_ok file -> sys_request Current d (tick Current d st8) = (wire d (t_s st8) n_fdata =? 211)) /\
+  (file_ok file -> sys_request Current d (tick Current d st8) = (wire d (t_s st8) n_fdata =? 211)) /\
   (* the state in which the time-11 edge fetches: registers clear, memory exactly as load() left it (no store) *)
   r_pc (t_s st10) = 0 /\ r_areg (t_s st10) = 0 /\ r_breg (t_s st10) = 0 /\ r_oreg (t_s st10) = 0 /\
   r_mem (t_s st10) = r_mem (t_s (power_on i file)) /\
@@ -664,7 +675,7 @@ Proof.
   - intros k. apply run_ticks. cbn [power_on t_time]. lia.
   - rewrite boot_state, boot_state8. cbn [rst_state t_s reset_state r_pc r_areg r_breg r_oreg r_mem t_time t_clk t_exit].
     repeat (split; [reflexivity|]). split; [|repeat (split; [reflexivity|])].
-    + intros F. set (m0 := r_mem (t_s (power_on i file))).
+    + intros [F _]. set (m0 := r_mem (t_s (power_on i file))).
       assert (I0 : Inv (reset_state m0)) by (apply reset_inv; apply power_on_mem_range; exact F).
       fold (reset_state m0). fold (rst_state 8 false 4 (reset_state m0)). rewrite tick_9, (sys_request_last_reset 5 _ I0).
       destruct I0 as [W0 _]. rewrite (rtl_fetch_is_ref _ W0). unfold ref_syscall_valid. destruct (r_fetch (reset_state m0) =? 211); reflexivity.
@@ -675,19 +686,21 @@ Qed.
 (* C13: execution begins at byte address 0 of the image: in the boot state pc = 0, the fetched byte is the first image
    byte, and the next evaluation (time 11) is one clock of the processor and memory from that state *)
 Theorem fetch_from_zero i file b0 rest :
-  bytes_ok file -> skipn 4 file = b0 :: rest ->
+  file_ok file -> 1 <= header file -> skipn 4 file = b0 :: rest ->
   let st := ticks Current d 10 (power_on i file) in
   r_pc (t_s st) = 0 /\ wire d (t_s st) n_fdata = b0 /\ t_s (tick Current d st) = cycle d (t_s st).
 Proof.
-  intros F E. cbv zeta. rewrite boot_state. cbn [rst_state t_s]. split; [reflexivity|]. split.
+  intros [F _] H1 E. cbv zeta. rewrite boot_state. cbn [rst_state t_s]. split; [reflexivity|]. split.
   - set (m0 := r_mem (t_s (power_on i file))).
     assert (I0 : Inv (reset_state m0)) by (apply reset_inv; apply power_on_mem_range; exact F).
     destruct I0 as [W0 _]. rewrite (rtl_fetch_is_ref _ W0). unfold r_fetch. cbn [reset_state r_pc r_mem].
     change (0 / 4) with 0. change (0 mod 4) with 0. change (2 ^ (8 * 0)) with 1. rewrite Z.div_1_r.
     assert (Fb : Forall (fun b => 0 <= b < 256) (b0 :: rest)) by (rewrite <- E; apply Forall_skipn_; exact F).
-    unfold m0, power_on. cbn [t_s r_mem]. unfold loaded_words. rewrite E.
+    unfold m0, power_on. cbn [t_s r_mem]. unfold loaded_words, image_bytes. rewrite E.
+    assert (K : exists k, Z.to_nat (4 * header file) = S (S (S (S k)))) by (exists (Z.to_nat (4 * header file) - 4)%nat; lia).
+    destruct K as [k ->].
     inversion Fb as [|? ? B0 Fr]; subst.
-    destruct rest as [|b1 [|b2 [|b3 r]]]; cbn [words_of_bytes load_words].
+    destruct rest as [|b1 [|b2 [|b3 r]]]; cbn [firstn words_of_bytes load_words].
     + rewrite rd_wr_same. apply Z.mod_small. lia.
     + inversion Fr; subst. rewrite rd_wr_same. lia.
     + inversion Fr as [|? ? B1 F2]; subst. inversion F2; subst. rewrite rd_wr_same. lia.
@@ -740,34 +753,19 @@ Proof.
 Qed.
 
 (* ------------------------------------------------------------------ C06: hextb = hexsim *)
-(* hexsim's load() copies the header's word count of image words; hextb's copies everything after the header.  The
-   region both initialise identically is the image: the first hw loaded words. *)
-Lemma image_agree i file hw (ws := firstn hw (loaded_words file)) : (hw <= List.length (loaded_words file))%nat ->
-  agree (region (Z.of_nat hw)) (mem (boot ws)) (r_mem (t_s (power_on i file))).
-Proof.
-  intros L x Hx. unfold region in Hx. apply andb_prop in Hx. destruct Hx as [H0 H1]. apply Z.leb_le in H0. apply Z.ltb_lt in H1.
-  unfold boot, power_on. cbn [mem t_s r_mem].
-  replace x with (0 + Z.of_nat (Z.to_nat x)) by lia.
-  assert (Lw : List.length ws = hw) by (unfold ws; rewrite firstn_length; lia).
-  rewrite !rd_load_words_inside by lia. unfold ws.
-  rewrite <- (firstn_skipn hw (loaded_words file)) at 2. rewrite app_nth1 by (rewrite firstn_length; lia). reflexivity.
-Qed.
-
-Lemma firstn_range (P : Z -> Prop) n : forall l, Forall P l -> Forall P (firstn n l).
-Proof. induction n as [|n IH]; intros l F; [constructor|]. destruct l; [constructor|]. inversion F; subst. constructor; [assumption | apply IH; assumption]. Qed.
-
-Theorem tb_equals_sim i file hw inp n tr inp' a' c (ws := firstn hw (loaded_words file)) :
-  bytes_ok file -> (hw <= List.length (loaded_words file))%nat ->
-  well_behaved (Z.of_nat hw) ws inp ->
+(* both loaders read the words the header announces (the debug tables behind them are not program memory); everything
+   else is zero in hexsim and power-on garbage in the RTL memory *)
+Theorem tb_equals_sim i file inp n tr inp' a' c (ws := loaded_words file) :
+  file_ok file ->
+  well_behaved (Z.of_nat (List.length ws)) ws inp ->
   Isa.run n (boot ws) inp [] = (tr, inp', a', Exited c) ->
   (exists st, run Current d (9 + 2 * n) 0 (power_on i file) inp [] = (tr, inp', st, TReturned (SimModel.to_int c))) /\
   (exists s, SimModel.run n 0 (SimModel.cpp_init ws) inp [] = (tr, inp', s, SimModel.Returned (SimModel.to_int c))).
 Proof.
-  intros F L WB H.
-  assert (Fw : Forall (fun w => 0 <= w < 4294967296) ws).
-  { unfold ws. apply firstn_range. unfold loaded_words. eapply words_of_bytes_range; [apply le_n|]. apply Forall_skipn_. exact F. }
+  intros FO WB H. pose proof FO as [F _].
+  assert (Fw : Forall (fun w => 0 <= w < 4294967296) ws) by (apply loaded_words_range; exact F).
   split.
-  - pose proof (tb_is_isa_tb (9 + 2 * n) i file inp ws _ F (image_agree i file hw L) WB) as V.
+  - pose proof (tb_is_isa_tb (9 + 2 * n) i file inp ws _ FO (region_agree i file) WB) as V.
     unfold isa_tb in V. replace (9 + 2 * n <=? 8)%nat with false in V by (symmetry; apply Nat.leb_gt; lia).
     rewrite (isa_run_phase n (boot ws) inp [] tr inp' a' c H) in V by lia.
     destruct (run Current d (9 + 2 * n) 0 (power_on i file) inp []) as [[[t2 i2] st] e2].
@@ -785,22 +783,29 @@ Qed.
 (* ------------------------------------------------------------------ non-vacuity: `proc main() is exit(7)` as compiled by xcmp *)
 Lemma exit7_bytes_ok : bytes_ok exit7_file.
 Proof. unfold bytes_ok, exit7_file. repeat constructor; lia. Qed.
+Lemma exit7_file_ok : file_ok exit7_file.
+Proof. split; [exact exit7_bytes_ok|]. split; vm_compute; [reflexivity | discriminate]. Qed.
 
-Lemma exit7_isa_run : exists a', Isa.run 20 (boot (firstn 9 (loaded_words exit7_file))) no_input [] = ([Exit 7], no_input, a', Exited 7).
+(* the image is the nine words the header announces: the symbol table behind it ("main") is not loaded *)
+Lemma exit7_loaded : header exit7_file = 9 /\ List.length (loaded_words exit7_file) = 9%nat /\ List.length exit7_file = 61%nat.
+Proof. repeat split. Qed.
+
+Lemma exit7_isa_run : exists a', Isa.run 20 (boot (loaded_words exit7_file)) no_input [] = ([Exit 7], no_input, a', Exited 7).
 Proof. eexists. vm_compute. reflexivity. Qed.
-
-Lemma exit7_well_behaved_image : well_behaved 9 (firstn 9 (loaded_words exit7_file)) no_input.
-Proof.
-  unfold well_behaved. destruct exit7_isa_run as [a' R]. eapply wb_exited; [exact R|]. vm_compute. reflexivity.
-Qed.
 
 Lemma exit7_well_behaved_loaded :
   well_behaved (Z.of_nat (List.length (loaded_words exit7_file))) (loaded_words exit7_file) no_input.
 Proof.
-  unfold well_behaved.
-  assert (R : exists a', Isa.run 20 (boot (loaded_words exit7_file)) no_input [] = ([Exit 7], no_input, a', Exited 7)) by (eexists; vm_compute; reflexivity).
-  destruct R as [a' R]. eapply wb_exited; [exact R|]. vm_compute. reflexivity.
+  unfold well_behaved. destruct exit7_isa_run as [a' R]. eapply wb_exited; [exact R|]. vm_compute. reflexivity.
 Qed.
+
+(* files the repaired loader rejects: main returns 1 without running *)
+Lemma loader_rejects :
+  tb_main Current d 100 0 (planted 0 0 false) [1; 0] no_input = None /\
+  tb_main Current d 100 0 (planted 0 0 false) [] no_input = None /\
+  tb_main Current d 100 0 (planted 0 0 false) [65; 13; 3; 0; 211; 0; 0; 0] no_input = None /\       (* 200001 words announced *)
+  (exists r, tb_main Current d 100 0 (planted 0 0 false) exit7_file no_input = Some r /\ outcome r = ([Exit 7], TReturned 7)).
+Proof. repeat split. eexists. split; [reflexivity|]. vm_compute. reflexivity. Qed.
 
 Lemma exit7_runs : forall hidden_bits pcv av bv ov fill,
   In hidden_bits [(false, false, false, false); (true, false, true, false); (true, true, true, true); (false, true, true, false)] ->
@@ -830,4 +835,43 @@ Proof.
   split; [vm_compute; reflexivity|]. split; [vm_compute; reflexivity|]. split; [vm_compute; reflexivity|].
   assert (R : exists a', Isa.run 5 (boot (loaded_words first_svc_file)) no_input [] = ([Exit 42], no_input, a', Exited 42)) by (eexists; vm_compute; reflexivity).
   split; [exact R|]. destruct R as [a' R]. unfold well_behaved. eapply wb_exited; [exact R|]. vm_compute. reflexivity.
+Qed.
+
+(* ------------------------------------------------------------------ the full-strength C06 statement (the monitor without the
+   READ clause) is FALSE: known finding read-overwrites-own-svc.  Image: LDAC 2; BR -> byte 8 | sp = 1 | OPR SVC at byte 8
+   (READ, result slot = word 2 = this very word) | LDAC 0; OPR SVC (EXIT) + console stream word | 7.  Input '!' = STAM 1. *)
+Definition tb_equals_sim_full : Prop :=
+  forall i file inp n tr inp' a' c, let ws := loaded_words file in
+  file_ok file -> well_behaved0 (Z.of_nat (List.length ws)) ws inp ->
+  Isa.run n (boot ws) inp [] = (tr, inp', a', Exited c) ->
+  (exists st, run Current d (9 + 2 * n) 0 (power_on i file) inp [] = (tr, inp', st, TReturned (SimModel.to_int c))) /\
+  (exists s, SimModel.run n 0 (SimModel.cpp_init ws) inp [] = (tr, inp', s, SimModel.Returned (SimModel.to_int c))).
+
+Definition read_own_svc_file : list Z :=
+  [5; 0; 0; 0;  50; 150; 0; 0;  1; 0; 0; 0;  211; 0; 0; 0;  48; 211; 0; 128;  7; 0; 0; 0].
+Definition bang_input : inputs := {| console := [33]; files := fun _ => [] |}.
+
+Lemma wb0_exited : forall N D a inp evs tr inp' a' c, Isa.run N a inp evs = (tr, inp', a', Exited c) ->
+  wb_mon0 D N a inp = true -> forall n, wb_mon0 D n a inp = true.
+Proof.
+  induction N as [|N IH]; intros D a inp evs tr inp' a' c H W n; [discriminate|].
+  destruct n as [|n]; [reflexivity|].
+  cbn [Isa.run] in H. cbn [wb_mon0] in W |- *.
+  apply andb_prop in W. destruct W as [W1 W2]. rewrite W1. cbn [andb].
+  destruct (step a inp) as [[[a1 inp1] ev]|u]; [|discriminate].
+  apply andb_prop in W2. destruct W2 as [W2 W3]. rewrite W2. cbn [andb].
+  destruct ev; try reflexivity; eapply IH; eauto.
+Qed.
+
+Theorem tb_equals_sim_full_refuted : ~ tb_equals_sim_full.
+Proof.
+  intros F.
+  assert (FO : file_ok read_own_svc_file).
+  { split; [unfold bytes_ok, read_own_svc_file; repeat constructor; lia|]. split; vm_compute; [reflexivity | discriminate]. }
+  destruct (Isa.run 12 (boot (loaded_words read_own_svc_file)) bang_input []) as [[[tr inp'] a'] e] eqn:R.
+  assert (E : e = Exited 2147537712) by (vm_compute in R; injection R as _ _ _ <-; reflexivity). subst e.
+  assert (WB : well_behaved0 (Z.of_nat (List.length (loaded_words read_own_svc_file))) (loaded_words read_own_svc_file) bang_input).
+  { unfold well_behaved0. eapply wb0_exited; [exact R|]. vm_compute. reflexivity. }
+  destruct (F (planted 0 0 false) read_own_svc_file bang_input 12%nat tr inp' a' 2147537712 FO WB R) as [[st T] _].
+  apply (f_equal (fun r : TbModel.result => snd r)) in T. cbn [snd] in T. vm_compute in T. discriminate.
 Qed.
